@@ -19,6 +19,7 @@ ORTH_FLOOR = 1e-8   # allowance for a chance near-coincidence of two singular va
 def rsvd_cases(draw, tier, size=None):
     lo_, hi = size or (1, 8 if tier == "quick" else 10)
     m, n = draw(st.integers(lo_, hi)), draw(st.integers(lo_, hi))
+    m, n = draw(gen.maybe_high_aspect(m, n))
     k = min(m, n)
     src = draw(st.sampled_from(["spectrum", "spectrum", "lowrank", "lowrank", "pattern"]))
     if src == "spectrum":
